@@ -25,8 +25,8 @@ PLAN["C01"] = {
              "and compared with an exact reference; exhaustive within the bounds, nothing beyond them. Small-scope exhaustiveness is the right level because "
              "the known failure modes (leaf symbols on one side, rule-less / useless states, binary rules with differently reached children) all occur with <=3 states and <=4 rules.",
     "technique": "bounded exhaustive enumeration of automata pairs x all InclParam configurations against a reference subset construction",
-    "quick": [("rel", "c01.unimpl"), ("rel", "c01.n2s3k2"), ("rel", "c01.n2s2k3"), ("rel", "c01.trim.n2s3.a3b3"), ("rel", "c01.trim.n2s2.a3b5"), ("rel", "c01.trim.n3abf.a4b2")],
-    "thorough": [("rel", "c01.unimpl"), ("rel", "c01.trim.n3s3.a3b3"), ("rel", "c01.trim.n2s2.a4b6"), ("rel", "c01.trim.n2s2.a5b7"), ("rel", "c01.n2s3k3"), ("rel", "c01.n3agk4"), ("rel", "c01.n2s2k4"), ("rel", "c01.trim.n3s3.a3b4"), ("rel", "c01.trim.n3afh.a3b3"), ("rel", "c01.trim.n4s3p.a2b4"), ("rel", "c01.trim.n3abf.a5b3"), ("rel", "c01.trim.n3abfg1.a4b3"), ("rel", "c01.trim.n4abf.a4b3")],   # c01.trim.n4s3p.a3b4 and c01.trim.n3s3.a4b4 need > 25 min each: registered in the engine, not in a tier
+    "quick": [("rel", "c01.huge.n2s2k2"), ("rel", "c01.unimpl"), ("rel", "c01.n2s3k2"), ("rel", "c01.n2s2k3"), ("rel", "c01.trim.n2s3.a3b3"), ("rel", "c01.trim.n2s2.a3b5"), ("rel", "c01.trim.n3abf.a4b2")],
+    "thorough": [("rel", "c01.huge.n2s2k2"), ("rel", "c01.unimpl"), ("rel", "c01.trim.n3s3.a3b3"), ("rel", "c01.trim.n2s2.a4b6"), ("rel", "c01.trim.n2s2.a5b7"), ("rel", "c01.n2s3k3"), ("rel", "c01.n3agk4"), ("rel", "c01.n2s2k4"), ("rel", "c01.trim.n3s3.a3b4"), ("rel", "c01.trim.n3afh.a3b3"), ("rel", "c01.trim.n4s3p.a2b4"), ("rel", "c01.trim.n3abf.a5b3"), ("rel", "c01.trim.n3abfg1.a4b3"), ("rel", "c01.trim.n4abf.a4b3")],   # c01.trim.n4s3p.a3b4 and c01.trim.n3s3.a4b4 need > 25 min each: registered in the engine, not in a tier
     "require": {"all": ["expect_included", "nonemptyA_not_included", "nonemptyA_included", "class_A_nullary_B_lacks", "class_A_state_without_rules",
                         "class_useless_states", "class_binary_both", "unimpl_calls"]},
 }
